@@ -17,15 +17,26 @@ tvars == <<l, disk, lock, pc, cache, dirty, val, sess, seen, commits, hdrOk>>
 Ln == Trace[l]
 
 \* a new file / a new run: everything idle, generation 0
+\* "nofile": the round starts without a file; the first session creates it.  Create is not atomic: the file
+\* is visible (empty) from the moment the creator's OpenFd made it until the creator holds the lock, and an Open
+\* that wins the lock in that window finds no header, fails and releases the lock again (hdrOk = FALSE).
 Reset == /\ Ln.ev = "reset"
          /\ disk' = [pg \in Pages |-> 0] /\ lock' = "free" /\ pc' = [p \in Procs |-> "idle"] /\ commits' = 0
-         /\ UNCHANGED <<cache, dirty, val, sess, seen, hdrOk>>
+         /\ hdrOk' = ("nofile" \notin DOMAIN Ln)
+         /\ UNCHANGED <<cache, dirty, val, sess, seen>>
 
 \* OpenFd . Acquire . ReadHeader(ok)
 OpenDone(p) == /\ Ln.ev = "opendone"
                /\ pc[p] = "idle" /\ lock = "free"
+               /\ hdrOk \/ "created" \in DOMAIN Ln          \* an Open succeeds only on an initialised file; Create initialises it
                /\ lock' = p /\ pc' = [pc EXCEPT ![p] = "open"]
-               /\ UNCHANGED <<disk, cache, dirty, val, sess, seen, commits, hdrOk>>
+               /\ hdrOk' = TRUE
+               /\ UNCHANGED <<disk, cache, dirty, val, sess, seen, commits>>
+
+\* OpenFd . Acquire . ReadHeader(failing) on the not yet initialised file: only before the creator holds the lock
+OpenErr(p) == /\ Ln.ev = "openerr"
+              /\ pc[p] = "idle" /\ lock = "free" /\ ~hdrOk
+              /\ UNCHANGED <<disk, lock, pc, cache, dirty, val, sess, seen, commits, hdrOk>>
 
 \* OpenFd . Acquire . ReadHeader(failing) . cleanup: the path must not stay locked
 OpenFail(p) == /\ Ln.ev = "openfail"
@@ -61,7 +72,7 @@ TInit == /\ l = 1 /\ Init /\ hdrOk = TRUE
 TNext == /\ l <= Len(Trace) /\ l' = l + 1
          /\ \/ Reset
             \/ \E p \in Procs : Ln.ev # "reset" /\ Ln.p = p /\
-                 (OpenDone(p) \/ OpenFail(p) \/ Load(p) \/ Synced(p) \/ Seen(p) \/ CloseStart(p))
+                 (OpenDone(p) \/ OpenErr(p) \/ OpenFail(p) \/ Load(p) \/ Synced(p) \/ Seen(p) \/ CloseStart(p))
 TSpec == TInit /\ [][TNext]_tvars
 
 \* the session-level steps preserve the invariants of WhisperFile
